@@ -15,6 +15,8 @@ pub trait SyncHooks: Send + Sync {
     /// Releases `mutex`, waits for a notification of `condvar`, then re-acquires `mutex`.
     fn wait(&self, condvar: usize, mutex: usize);
     fn notify_all(&self, condvar: usize);
+    /// Wakes at most one waiter of `condvar` (which one is the scheduler's choice).
+    fn notify_one(&self, condvar: usize);
     /// A frame's render operation starts (`enter`) or ends on the calling thread.
     fn render_op(&self, frame_idx: usize, enter: bool);
 }
@@ -160,8 +162,12 @@ impl Condvar {
     }
 
     pub fn notify_one(&self) {
-        // Not used by the render-handle protocol today; modelled as a broadcast to exactly one waiter is the
-        // scheduler's business, so report it as notify_all of a single waiter is not possible here: keep std.
+        let h = HOOKS.read().unwrap().clone();
+        if let Some(h) = h {
+            if h.controlled() {
+                h.notify_one(self.id());
+            }
+        }
         self.inner.notify_one();
     }
 }
